@@ -281,8 +281,29 @@ func (g *Gen) genHelper() {
 	}
 	fx := g.newFnCtx(f, false)
 	np := r.Intn(4)
+	// now and then a wide signature (5-7 parameters) that shares its return type and its first four parameter types
+	// with the previous wide helper: signature caches keyed on a truncated parameter list collide on such pairs
+	wide := r.Chance(1, 6)
+	if wide {
+		np = r.Range(5, 7)
+		if g.wideSig != nil && r.Chance(2, 3) {
+			f.Ret = g.wideRet
+		}
+		g.feat("fn.wide-signature")
+	}
 	for i := 0; i < np; i++ {
 		var t *Type
+		if wide {
+			if g.wideSig != nil && i < 4 && i < len(g.wideSig) {
+				t = g.wideSig[i]
+			} else {
+				t = g.randValueType()
+			}
+			p := &Var{Name: g.name("a"), Kind: VParam, Ty: t}
+			f.Params = append(f.Params, p)
+			fx.sc.vars = append(fx.sc.vars, p)
+			continue
+		}
 		if r.Chance(1, 4) && g.on("ptr-params") {
 			sp := "function"
 			if r.Chance(1, 4) && g.on("ptr-params.private") {
@@ -318,6 +339,13 @@ func (g *Gen) genHelper() {
 		p := &Var{Name: g.name("a"), Kind: VParam, Ty: t}
 		f.Params = append(f.Params, p)
 		fx.sc.vars = append(fx.sc.vars, p)
+	}
+	if wide {
+		g.wideSig = nil
+		for _, p := range f.Params {
+			g.wideSig = append(g.wideSig, p.Ty)
+		}
+		g.wideRet = f.Ret
 	}
 	g.fx = fx
 	n := g.Cfg.Stmts
